@@ -156,7 +156,7 @@ theorem evalEω_call (f : String) (args : List Expr) :
     evalEω Φ σ μ C (.call f args) =
       (do let (vs, μ') ← evalEsω Φ σ μ C args
           match Φ.find? f with
-          | none => .error .unbound
+          | none => (ctxCtor f vs).map (fun c => (Val.ctx c, μ'))
           | some fd =>
             if fd.params.length != vs.length then .error .typeError
             else do
